@@ -14,6 +14,16 @@ import sys
 
 ROOT = os.path.dirname(os.path.dirname(os.path.abspath(__file__)))
 HINTS = {
+    6: "a defect at the EDGE of a numeric range (start == end, frequency exactly 1 or 2, radius 0, an extent of exactly 1, "
+       "leeway 0, one repetition, an empty or one-element collection); a defect in which a method MUTATES an argument or a "
+       "returned container that the caller still uses (lists, dicts, arrays handed in or out); a defect that only shows "
+       "through the RETURN VALUE of a method whose side effect stays right (or the other way round); a defect in the "
+       "container protocol of Model / SystemManager / Environment / Agent (__getitem__, __contains__, __len__, __iter__, "
+       "__bool__, get_* shorthands with their strict/lenient flags); a defect that needs the same operation applied TWICE "
+       "(idempotence: registering, removing, completing, building, decoding, adding a tag again); a defect that only shows "
+       "when an exception raised by the library itself is caught by the caller who then carries on (state half-updated "
+       "before the raise); a defect in the interplay of inheritance (a subclass of a library class overriding one method "
+       "while the library calls another).",
     5: "a defect that only shows on the SECOND use of an object (a ParameterList, Decoder, collector, environment or model "
        "that is reused after it was emptied / completed / handed over); a defect caused by a Python subtlety (mutable default "
        "argument, class attribute used where an instance attribute was meant, `is` versus `==`, bool being an int, numpy "
